@@ -3,6 +3,7 @@ import GqlVerif.Proofs.C01EndToEnd
 import GqlVerif.Proofs.C01AbstractI
 import GqlVerif.Proofs.C01RecursiveE
 import GqlVerif.Proofs.C01RecursiveV
+import GqlVerif.Proofs.C01Rust
 open GqlVerif.C01
 #print axioms accepts_mono
 #print axioms conforming_int_accepted
@@ -59,3 +60,14 @@ open GqlVerif.C01
 #print axioms GqlVerif.C01.E2E.recfragment_lossless
 #print axioms GqlVerif.C01.E2E.recfragment_roundtrip
 #print axioms GqlVerif.C01.E2E.canonR_stable
+-- the same end-to-end statements for a context with `normalization = rust`, by transfer (Proofs/C01Rust.lean)
+#print axioms GqlVerif.C01.E2E.transfer_accepts
+#print axioms GqlVerif.C01.E2E.transfer_roundtrip
+#print axioms GqlVerif.C01.E2E.tree_accepts_rust
+#print axioms GqlVerif.C01.E2E.tree_lossless_rust
+#print axioms GqlVerif.C01.E2E.variant_accepts_rust
+#print axioms GqlVerif.C01.E2E.variant_lossless_rust
+#print axioms GqlVerif.C01.E2E.fragment_accepts_rust
+#print axioms GqlVerif.C01.E2E.fragment_lossless_rust
+#print axioms GqlVerif.C01.E2E.recfragment_accepts_rust
+#print axioms GqlVerif.C01.E2E.recfragment_lossless_rust
